@@ -246,6 +246,12 @@ extern "C" {
     std::string format = ak::util::dtype_to_format(dt);
     if (dt == ak::util::dtype::datetime64) format = std::string("M8[") + unit + "]";
     if (dt == ak::util::dtype::timedelta64) format = std::string("m8[") + unit + "]";
+    if (std::string(unit) == "alt") {
+      // the other spelling of the same 8-byte integer type ('l' and 'q', 'L' and 'Q': what np.int64 and np.longlong
+      // buffers announce on this platform)
+      if (dt == ak::util::dtype::int64) format = (format == "l" ? "q" : "l");
+      if (dt == ak::util::dtype::uint64) format = (format == "L" ? "Q" : "L");
+    }
     ak::ContentPtr out = std::make_shared<ak::NumpyArray>(
         ak::Identities::none(), ak::util::Parameters(), std::shared_ptr<void>(b->p, b->p.get()), sh, st,
         (ssize_t)byteoffset, (ssize_t)ak::util::dtype_to_itemsize(dt), format, dt, ak::kernel::lib::cpu);
